@@ -47,6 +47,9 @@ pub struct RenderOpt {
     pub serde_xml_rs: bool,
     pub by_name: bool,
     pub derive: String,
+    /// override of `Options::attribute_prefix` / `Options::text_identifier` (public fields a caller may set)
+    pub attribute_prefix: Option<String>,
+    pub text_identifier: Option<String>,
 }
 
 impl RenderOpt {
@@ -54,19 +57,37 @@ impl RenderOpt {
         let mut o = if self.serde_xml_rs { Options::serde_xml_rs() } else { Options::quick_xml_de() };
         o = o.derive(&self.derive);
         o.sort = if self.by_name { SortBy::XmlName } else { SortBy::Unsorted };
+        if let Some(p) = &self.attribute_prefix {
+            o.attribute_prefix = p.clone();
+        }
+        if let Some(t) = &self.text_identifier {
+            o.text_identifier = t.clone();
+        }
         o
     }
+    pub fn preset(serde_xml_rs: bool, by_name: bool, derive: &str) -> RenderOpt {
+        RenderOpt { serde_xml_rs, by_name, derive: derive.to_string(), attribute_prefix: None, text_identifier: None }
+    }
     pub fn to_j(&self) -> J {
-        J::obj()
+        let mut j = J::obj()
             .set("preset", J::s(if self.serde_xml_rs { "serde_xml_rs" } else { "quick_xml_de" }))
             .set("sort", J::s(if self.by_name { "name" } else { "unsorted" }))
-            .set("derive", J::s(&self.derive))
+            .set("derive", J::s(&self.derive));
+        if let Some(p) = &self.attribute_prefix {
+            j.put("attribute_prefix", J::s(p));
+        }
+        if let Some(t) = &self.text_identifier {
+            j.put("text_identifier", J::s(t));
+        }
+        j
     }
     pub fn from_j(j: &J) -> Result<RenderOpt, String> {
         Ok(RenderOpt {
             serde_xml_rs: j.str_of("preset")? == "serde_xml_rs",
             by_name: j.str_of("sort")? == "name",
             derive: j.str_of("derive")?,
+            attribute_prefix: j.str_of("attribute_prefix").ok(),
+            text_identifier: j.str_of("text_identifier").ok(),
         })
     }
 }
@@ -429,4 +450,24 @@ pub fn trace_hash(outs: &[ReplicaOut]) -> u64 {
         }
     }
     h.0
+}
+
+/// The independent verdict pass over an identical reader stack and plan (C08 oracle, C06 failure half).
+pub fn expected_verdict(bytes: &[u8], plan: &Plan, cfg: u16, initial: bool) -> crate::verdict::Verdict {
+    use crate::verdict::verdict;
+    if plan.slice {
+        let mut reader = Reader::from_reader(bytes);
+        apply_cfg(&mut reader, cfg);
+        verdict(&mut reader, initial)
+    } else if plan.bufreader_cap > 0 {
+        let sim = SimReader::new(bytes, plan);
+        let mut reader = Reader::from_reader(BufReader::with_capacity(plan.bufreader_cap, sim));
+        apply_cfg(&mut reader, cfg);
+        verdict(&mut reader, initial)
+    } else {
+        let sim = SimReader::new(bytes, plan);
+        let mut reader = Reader::from_reader(sim);
+        apply_cfg(&mut reader, cfg);
+        verdict(&mut reader, initial)
+    }
 }
